@@ -193,7 +193,9 @@ func comparePaint(a, b *rast.Paint) string {
 			// translations are sums of products with the viewBox origin
 			scale = math.Max(scale, 64*math.Max(math.Abs(a.Transform[i-2]), math.Abs(a.Transform[i-1])))
 		}
-		if math.Abs(x-y) > 1e-5*scale && !(x != x && y != y) {
+		// 1e-35: the 4-byte number form drops the two low mantissa bits, which for a denormal
+		// float32 is an absolute step (2^-147) and not a relative one
+		if math.Abs(x-y) > 1e-5*scale+1e-35 && !(x != x && y != y) {
 			return fmt.Sprintf("gradient transform entry %d differs: %v vs %v", i, x, y)
 		}
 	}
@@ -335,7 +337,11 @@ func genAction(t *rapid.T) Action {
 		}
 		return Action{K: "nreg", Adj: adj, Incr: incr, F: []ops.F32{ops.F32(float32(rapid.IntRange(-64, 192).Draw(t, "f")) / 64)}}
 	case 7:
-		return Action{K: "lod", F: []ops.F32{ops.F32(rapid.SampledFrom([]int{0, 0, 0, 16, 64}).Draw(t, "lod0")), ops.F32(rapid.SampledFrom([]int{1000, 1000, 64, 65, 1 << 14}).Draw(t, "lod1"))}}
+		a := Action{K: "lod", F: []ops.F32{ops.F32(rapid.SampledFrom([]int{0, 0, 0, 16, 64}).Draw(t, "lod0")), ops.F32(rapid.SampledFrom([]int{1000, 1000, 64, 65, 1 << 14}).Draw(t, "lod1"))}}
+		if rapid.IntRange(0, 4).Draw(t, "lodinf") == 0 {
+			a.F[1] = ops.F32(float32(math.Inf(1))) // the default upper bound: how a graphic goes back to "always"
+		}
+		return a
 	case 8:
 		return Action{K: "read"}
 	case 9:
